@@ -929,3 +929,87 @@ def wif_network_hint(ctx):
             ctx.require(gv == exp, q, 'Key.from_wif(wif, network=%r) with a version byte shared by bitcoin and regtest builds the key on network %s, expected %s' % (hint, gv, exp), fn,
                         "Key.from_wif(wif, network='regtest').address() is a bc1... address: the supplied network is lost on import")
     ctx.floor(n, 3, 'Key constructions')
+
+
+@PROP.obligation('C12.supplied-options', canaries=[
+    mut.replace_expr('keys', 'HDKey.__init__', "len(kf['multisig']) == 1 and kf['multisig'][0]", "len(kf['multisig']) == 1", 'a key format that does not encode the multisig flag resets a supplied multisig=True'),
+    mut.replace_stmt('keys', 'HDKey.__init__', 'network = import_key.network', 'network = None', 'the network of a wrapped Key object is dropped'),
+    mut.drop_stmt('keys', 'HDKey.__init__', 'if isinstance(network, Network)', 'a Network object given as network is wrapped in another Network'),
+])
+def supplied_options(ctx):
+    """"... and - when the format encodes it or it is supplied - the same network, witness type and multisig flag." The part of
+    HDKey.__init__ that looks at the imported key is evaluated for (a) a hex secret (get_key_format says multisig [False], networks
+    None) with multisig=True supplied: the flag stays True; (b) a Key object of network litecoin and no network argument: the network
+    is the one of the Key object; (c) an extended key with a Network OBJECT as network argument (the documented type is str or
+    Network): what reaches Network(...) / Key.__init__ is its name or the object itself, never Network(<Network object>)."""
+    q = 'keys:HDKey.__init__'
+    fn = ctx.repo.func(q)
+    top = [i for i, s_ in enumerate(fn.body) if isinstance(s_, ast.If) and norm(s_.test) == 'not key']
+    if len(top) != 1:
+        ctx.undecided('HDKey.__init__: the block that looks at the imported key (`if not key:`) was not found')
+    stmts = [s_ for s_ in fn.body[:top[0] + 1] if not (isinstance(s_, ast.Expr) and isinstance(s_.value, ast.Constant))]
+    IK = ('var', 'import_key')
+    NETOBJ = ('var', 'network_object')
+    n = 0
+
+    def run(env, hooks, decide, what):
+        it = Interp(ctx.repo, 'keys', hooks=hooks, self_cls='keys:HDKey', decide=decide)
+        base = {'self': S(SELF), 'key': None, 'chain': None, 'depth': 0, 'parent_fingerprint': b'\0\0\0\0', 'child_index': 0, 'is_private': True, 'network': None, 'key_type': 'bip32',
+                'password': '', 'compressed': True, 'encoding': None, 'witness_type': None, 'multisig': False}
+        base.update(env)
+        st = State(env=base)
+        it.frames.append([])
+        try:
+            end = it.exec_block(stmts, st)
+        except AnalysisError as e:
+            ctx.undecided('HDKey.__init__ (%s): not evaluable: %s' % (what, str(e)[:100]))
+        it.frames.pop()
+        if end is None:
+            ctx.undecided('HDKey.__init__ (%s): raises' % what)
+        return end
+    # (a)
+    hooks = dict(LAYOUT_HOOKS)
+    hooks['get_key_format'] = lambda it, a, kw, st, node: {'format': 'hex', 'networks': None, 'is_private': True, 'script_types': [], 'witness_types': ['segwit'], 'multisig': [False]}
+    hooks['check_network_and_key'] = lambda it, a, kw, st, node: 'bitcoin'
+    hooks['Network'] = lambda it, a, kw, st, node: S(('net', term(a[0]) if isinstance(a[0], S) else a[0]))
+    for given in (True, False):
+        end = run({'import_key': S(IK, 'str'), 'multisig': given}, hooks, lambda t: True if t == IK else (False if isinstance(t, tuple) and t and t[0] == 'isinstance' else None), 'hex secret, multisig=%s' % given)
+        got = end.env.get('multisig')
+        n += 1
+        ctx.saw('HDKey(<hex secret>, multisig=%s) -> multisig %s' % (given, got))
+        ctx.require(got is given, q, 'HDKey(<hex secret>, multisig=%s) ends with multisig=%s: the default of a format that does not encode the flag wins over the argument' % (given, got), fn.body[top[0]],
+                    'HDKey(secret, multisig=True).wif_public() carries the single-signature prefix (zpub instead of Zpub): an import of it is no multisig key')
+    # (b)
+    def decide_key(t):
+        if t == IK:
+            return True
+        if isinstance(t, tuple) and t and t[0] == 'isinstance' and t[1] == IK:
+            return 'Key' in show(t[2]) and 'bytes' not in show(t[2])
+        return None
+    end = run({'import_key': S(IK)}, {}, decide_key, 'Key object')
+    got = term(end.env.get('network')) if isinstance(end.env.get('network'), S) else end.env.get('network')
+    n += 1
+    ctx.saw('HDKey(<Key object>) without network -> network %s' % (show(got) if isinstance(got, tuple) else got))
+    ok = got in (('attr', IK, 'network'), ('attr', ('attr', IK, 'network'), 'name'))
+    ctx.require(ok, q, 'HDKey(<Key object>) without a network argument continues with network %s, not the network of the Key object' % (show(got) if isinstance(got, tuple) else got), fn.body[top[0]],
+                "HDKey(Key(secret, network='litecoin')).network.name is 'bitcoin'")
+    # (c)
+    seen = []
+    hooks2 = dict(hooks)
+    hooks2['get_key_format'] = lambda it, a, kw, st, node: {'format': 'hex', 'networks': ['bitcoin'], 'is_private': True, 'script_types': [], 'witness_types': ['segwit'], 'multisig': [False]}
+    hooks2['check_network_and_key'] = lambda it, a, kw, st, node: a[1]
+    hooks2['Network'] = lambda it, a, kw, st, node: (seen.append(term(a[0]) if isinstance(a[0], S) else a[0]), S(('net', 'x')))[1]
+
+    def decide_net(t):
+        if t == IK:
+            return True
+        if isinstance(t, tuple) and t and t[0] == 'isinstance':
+            return t[1] == NETOBJ and 'Network' in show(t[2])
+        return None
+    run({'import_key': S(IK, 'str'), 'network': S(NETOBJ)}, hooks2, decide_net, 'Network object as network')
+    n += 1
+    ctx.saw('HDKey(<key text>, network=<Network object>) -> Network(%s)' % [show(x) if isinstance(x, tuple) else x for x in seen])
+    ctx.require(bool(seen) and all(x == ('attr', NETOBJ, 'name') for x in seen), q,
+                'with a Network object as network argument the constructor builds Network(%s)' % ([show(x) if isinstance(x, tuple) else x for x in seen][:1]), fn.body[top[0]],
+                "HDKey(xprv, network=Network('bitcoin')).network.name is a Network object: as_json() raises TypeError")
+    ctx.floor(n, 4, 'supplied-option scenarios')
